@@ -257,7 +257,7 @@ fn c07_raw() -> impl Strategy<Value = Case> {
             port: 443,
             pad: b"example".to_vec(),
             delay: 0,
-            park: None,
+            park: None, cancel: None,
             ends: [EndScript { w: vec![WOp::Write(3)], r: vec![] }, EndScript::default()],
         }];
         let events = inj
@@ -378,7 +378,7 @@ pub fn c07(ctx: &Ctx, rep: &mut Report) {
             let w = |n: u32| vec![WOp::Write(1); n as usize + 3];
             Case {
                 opts: [OptsSpec { rwnd: wa, thr: 1, ..OptsSpec::default() }, OptsSpec { rwnd: wb, thr: 64, ..OptsSpec::default() }],
-                streams: vec![StreamSpec { side, port: 1, pad: vec![], delay: 0, park: None, ends: [EndScript { w: w(wa.max(wb)), r: vec![] }, EndScript { w: w(wa.max(wb)), r: vec![] }] }],
+                streams: vec![StreamSpec { side, port: 1, pad: vec![], delay: 0, park: None, cancel: None, ends: [EndScript { w: w(wa.max(wb)), r: vec![] }, EndScript { w: w(wa.max(wb)), r: vec![] }] }],
                 ..Case::default()
             }
         },
@@ -400,7 +400,7 @@ pub fn c07(ctx: &Ctx, rep: &mut Report) {
             opts[reader_side] = OptsSpec { rwnd: w, thr: 64, ..OptsSpec::default() };
             let mut ends = [EndScript { w: vec![], r: vec![] }, EndScript { w: vec![], r: vec![] }];
             ends[writer_end].w = vec![WOp::Write(1); w as usize + 3];
-            Case { opts, streams: vec![StreamSpec { side, port: 1, pad: vec![], delay: 0, park: None, ends }], step_bound: 2_000_000, ..Case::default() }
+            Case { opts, streams: vec![StreamSpec { side, port: 1, pad: vec![], delay: 0, park: None, cancel: None, ends }], step_bound: 2_000_000, ..Case::default() }
         },
         |case| {
             let run = run_case(case);
@@ -468,7 +468,7 @@ fn c06_case() -> impl Strategy<Value = Case> {
                 w.push(WOp::Park(k as u8 + 1));
                 r.push(ROp::Read(64));
             }
-            streams.push(StreamSpec { side, port: 1, pad: vec![], delay: 0, park: None, ends: [EndScript { w: w.clone(), r: r.clone() }, EndScript { w, r }] });
+            streams.push(StreamSpec { side, port: 1, pad: vec![], delay: 0, park: None, cancel: None, ends: [EndScript { w: w.clone(), r: r.clone() }, EndScript { w, r }] });
         }
         let mut x = seed | 1;
         let mut next = || {
@@ -497,7 +497,7 @@ fn c06_case() -> impl Strategy<Value = Case> {
                     }
                     EndScript { w, r }
                 };
-                streams.push(StreamSpec { side, port: 2, pad: vec![], delay: 0, park: if k == 0 { None } else { Some(k as u8) }, ends: [mk(e0), mk(e1)] });
+                streams.push(StreamSpec { side, port: 2, pad: vec![], delay: 0, park: if k == 0 { None } else { Some(k as u8) }, cancel: None, ends: [mk(e0), mk(e1)] });
             }
             if k > 0 {
                 events.push(RawEvent { when: Trigger::Quiescent, what: What::Wake(k as u8) });
@@ -694,7 +694,7 @@ fn c06_raw_case() -> impl Strategy<Value = Case> {
         events.push(RawEvent { when: Trigger::Quiescent, what: What::Inject { from: 1, msg: RawMsg::Connect { id, rwnd: 3, port: 6, host: b"probe".to_vec() } } });
         Case {
             opts: [o0, OptsSpec::default()],
-            streams: vec![StreamSpec { side: 1, port: 5, pad: vec![], delay: 0, park: None, ends: [EndScript::default(), EndScript { w, r }] }],
+            streams: vec![StreamSpec { side: 1, port: 5, pad: vec![], delay: 0, park: None, cancel: None, ends: [EndScript::default(), EndScript { w, r }] }],
             raw: Some(RawPolicy { reject_first: 0, ack_connects: None, ack_every: Some(1), answer_close: true, no_ack_streams: vec![] }),
             events,
             schedule,
@@ -784,10 +784,10 @@ fn c06_stale_case() -> impl Strategy<Value = StaleCase> {
         let new_end = EndScript { w: vec![WOp::Write(3), WOp::Park(2), WOp::Write(2), WOp::Shutdown], r: vec![ROp::ToEof(16)] };
         let (new_spec, rng0, pdir) = if local_open {
             events.push(RawEvent { when: Trigger::Quiescent, what: What::Wake(3) });
-            (StreamSpec { side: 0, port: 6, pad: vec![], delay: 0, park: Some(3), ends: [new_end, EndScript::default()] }, vec![id], 1u8)
+            (StreamSpec { side: 0, port: 6, pad: vec![], delay: 0, park: Some(3), cancel: None, ends: [new_end, EndScript::default()] }, vec![id], 1u8)
         } else {
             events.push(RawEvent { when: Trigger::Quiescent, what: What::Inject { from: 1, msg: RawMsg::Connect { id, rwnd: 4, port: 6, host: b"s1.".to_vec() } } });
-            (StreamSpec { side: 1, port: 6, pad: vec![], delay: 0, park: None, ends: [EndScript::default(), new_end] }, vec![], 0u8)
+            (StreamSpec { side: 1, port: 6, pad: vec![], delay: 0, park: None, cancel: None, ends: [EndScript::default(), new_end] }, vec![], 0u8)
         };
         events.push(RawEvent { when: Trigger::Quiescent, what: What::Wake(1) });
         events.push(RawEvent { when: Trigger::Quiescent, what: What::Inject { from: 1, msg: RawMsg::PushDir { id, stream: 1, dir: pdir, off: 0, len: 4 } } });
@@ -796,7 +796,7 @@ fn c06_stale_case() -> impl Strategy<Value = StaleCase> {
         let case = Case {
             opts: [o0, OptsSpec::default()],
             rng: [rng0, vec![]],
-            streams: vec![StreamSpec { side: 1, port: 5, pad: vec![], delay: 0, park: None, ends: [EndScript::default(), EndScript { w, r }] }, new_spec],
+            streams: vec![StreamSpec { side: 1, port: 5, pad: vec![], delay: 0, park: None, cancel: None, ends: [EndScript::default(), EndScript { w, r }] }, new_spec],
             raw: Some(RawPolicy { reject_first: 0, ack_connects: Some(4), ack_every: Some(1), answer_close: true, no_ack_streams: vec![] }),
             events,
             schedule,
@@ -937,7 +937,7 @@ pub fn c06(ctx: &Ctx, rep: &mut Report) {
                     port: 9,
                     pad: vec![],
                     delay: 0,
-                    park: None,
+                    park: None, cancel: None,
                     ends: [EndScript { w: vec![WOp::Write(1), WOp::Park(1), WOp::Drop], r: vec![] }, EndScript { w: vec![], r: vec![ROp::ToEof(64)] }],
                 })
                 .collect();
@@ -1235,7 +1235,7 @@ pub fn c15(ctx: &Ctx, rep: &mut Report) {
                 rng: [vec![7, 7, 7, 7], vec![]],
                 binds: vec![BindSpec { side: 0, dgram: i >= 4, host: b"h".to_vec(), port: 1, delay: 0 }],
                 bind_policy: [BindPolicy::default(), BindPolicy { answers: vec![ans], batch: 1, order: vec![], enabled }],
-                streams: vec![StreamSpec { side: 0, port: 3, pad: vec![], delay: 0, park: Some(1), ends: [EndScript { w: vec![WOp::Write(2), WOp::Shutdown], r: vec![ROp::ToEof(8)] }, EndScript { w: vec![WOp::Shutdown], r: vec![ROp::ToEof(8)] }] }],
+                streams: vec![StreamSpec { side: 0, port: 3, pad: vec![], delay: 0, park: Some(1), cancel: None, ends: [EndScript { w: vec![WOp::Write(2), WOp::Shutdown], r: vec![ROp::ToEof(8)] }, EndScript { w: vec![WOp::Shutdown], r: vec![ROp::ToEof(8)] }] }],
                 events: vec![RawEvent { when: Trigger::Quiescent, what: What::Wake(1) }],
                 ..Case::default()
             }
